@@ -18,7 +18,7 @@ var goNames = []string{"A", "B", "C", "Ab", "AB", "Name", "ID", "X1", "Field", "
 
 // JSON names used as tags and as object keys: case variants of one another, non-ASCII letters with case
 // mappings (inside and outside the ASCII-only fold), punctuation allowed in tags.
-var jsonNames = []string{"a", "A", "name", "Name", "NAME", "id", "Id", "x-y", "k", "K", "s", "S", "i", "I", "é", "É", "σ", "Σ", "ß", "élève", "Élève",
+var jsonNames = []string{"a", "A", "name", "Name", "NAME", "id", "Id", "x-y", "k", "K", "s", "S", "i", "I", "é", "É", "σ", "Σ", "ß", "élève", "Élève", "été", "ÉTÉ",
 	"with space", "key", "Key", "kEY", "aa", "aA", "Aa", "n0", "ab", "AB", "Ab", "field", "FIELD", "q", "val", "zz", "x1", "f_1"}
 
 var tagOpts = []string{"", "", "", ",omitempty", ",string", ",string", ",omitempty,string", ",string,omitempty", ",strin", ",String", ", string"}
@@ -527,6 +527,26 @@ func (g *igen) fieldKey(rfs []RField) (string, *RField) {
 			name = name[:len(name)-1]
 		}
 	}
+	if g.r.Chance(1, 6) {
+		// the same key with its non-ASCII letters written as \uXXXX escapes
+		var b strings.Builder
+		esc := false
+		for _, rn := range name {
+			if rn >= 0x80 && rn < 0x10000 {
+				fmt.Fprintf(&b, `\u%04x`, rn)
+				esc = true
+			} else if rn < 0x20 || rn == '"' || rn == '\\' || rn >= 0x10000 {
+				esc = false
+				b.Reset()
+				break
+			} else {
+				b.WriteRune(rn)
+			}
+		}
+		if esc {
+			return `"` + b.String() + `"`, f
+		}
+	}
 	return g.strLit(name), f
 }
 
@@ -539,6 +559,26 @@ func (g *igen) quoted(t *Ty) string {
 	inner = inner.deref()
 	if g.r.Chance(1, 10) {
 		return []string{`"null"`, `null`, `""`, `"\"\""`, `" "`, `"nul"`}[g.r.Intn(6)]
+	}
+	if g.r.Chance(1, 4) {
+		// near misses of the quoted literals: the closing quote replaced by another byte (the rest of the document
+		// follows), one letter short / long, blanks inside the quotes
+		word := []string{"null", "null", "null", "true", "false", "12", "-3", "0.5"}[g.r.Intn(8)]
+		c := []string{"x", "}", "]", ",", ":", " ", "0", "\n", "'", "\\"}[g.r.Intn(10)]
+		switch g.r.Intn(8) {
+		case 0, 1, 2:
+			return `"` + word + c // no closing quote: whatever follows is swallowed or left over
+		case 3:
+			return `"` + word[:len(word)-1] + `"`
+		case 4:
+			return `"` + word + word[len(word)-1:] + `"`
+		case 5:
+			return `"` + word + ` "`
+		case 6:
+			return `" ` + word + `"`
+		default:
+			return `"` + word + `"`
+		}
 	}
 	if g.r.Chance(1, 10) {
 		return g.value(t, 1) // unquoted
